@@ -796,3 +796,68 @@ Example ex_negative_maximum :
   let c := final ex_clk [OStart] ex_watch 0 in
   elapsed ex_clk (fst c) (snd c) (Some (-1)) = ((fst c, 2%nat), Ok 0).
 Proof. vm_compute. reflexivity. Qed.
+
+(* ===================================================================== *)
+(* D. the timestamps, history-wise                                       *)
+(* ===================================================================== *)
+Section Timestamps.
+Variable clk : nat -> Z.
+
+Lemma no_restart_keeps_started ops : forall w t,
+  restarts_in clk ops w t = false -> w_started (fst (final clk ops w t)) = w_started w.
+Proof.
+  induction ops as [|o r IH]; intros w t H; [reflexivity|].
+  cbn [restarts_in final] in *. apply orb_false_elim in H. destruct H as [H1 H2].
+  pose proof (started_at_frame clk o w t H1) as HF.
+  destruct (step clk o w t) as [[w' t'] res]. cbn [fst] in HF. rewrite (IH w' t' H2). exact HF.
+Qed.
+
+(* _started_at is the last clock reading taken by the last (re)start of the history *)
+Lemma started_at_is_last_restart ops1 o ops2 w0 t0 :
+  let c1 := final clk ops1 w0 t0 in
+  effective_restart o (fst c1) = true ->
+  let c2 := fst (step clk o (fst c1) (snd c1)) in
+  restarts_in clk ops2 (fst c2) (snd c2) = false ->
+  w_started (fst (final clk (ops1 ++ o :: ops2) w0 t0)) = Some (clk (snd c2 - 1)) /\ (snd c1 < snd c2)%nat.
+Proof.
+  intros c1 HR c2 HN. rewrite final_app. fold c1. cbn [final].
+  destruct (restart_effect clk o (fst c1) (snd c1) HR) as (t' & HS & Ht).
+  subst c2. rewrite HS in *. cbn [fst snd] in *.
+  rewrite (no_restart_keeps_started ops2 _ _ HN). cbn [w_started].
+  split; [do 2 f_equal; lia|lia].
+Qed.
+
+Lemma no_stop_keeps_stopped ops : forall w t,
+  stops_in clk ops w t = false -> w_stopped (fst (final clk ops w t)) = w_stopped w.
+Proof.
+  induction ops as [|o r IH]; intros w t H; [reflexivity|].
+  cbn [stops_in final] in *. apply orb_false_elim in H. destruct H as [H1 H2].
+  apply orb_false_elim in H1. destruct H1 as [H0 H1].
+  pose proof (stopped_at_frame clk o w t H0 H1) as HF.
+  destruct (step clk o w t) as [[w' t'] res]. cbn [fst] in HF. rewrite (IH w' t' H2). exact HF.
+Qed.
+
+(* _stopped_at is the clock reading taken by the last stop of the history *)
+Lemma stopped_at_is_last_stop ops1 o ops2 w0 t0 :
+  let c1 := final clk ops1 w0 t0 in
+  effective_stop o (fst c1) = true ->
+  let c2 := fst (step clk o (fst c1) (snd c1)) in
+  stops_in clk ops2 (fst c2) (snd c2) = false ->
+  w_stopped (fst (final clk (ops1 ++ o :: ops2) w0 t0)) = Some (clk (snd c1)).
+Proof.
+  intros c1 HR c2 HN. rewrite final_app. fold c1. cbn [final].
+  destruct (stop_effect clk o (fst c1) (snd c1) HR) as (v & HS).
+  subst c2. rewrite HS in *. cbn [fst snd] in *.
+  rewrite (no_stop_keeps_stopped ops2 _ _ HN). reflexivity.
+Qed.
+
+End Timestamps.
+
+(* instance: start@100 ... the last (re)start of ex_ops ++ [ORestart; OSplit; OStop] is the restart *)
+Example ex_last_restart :
+  let ops1 := ex_ops in
+  let c1 := final ex_clk ops1 ex_watch 0 in
+  effective_restart ORestart (fst c1) = true /\
+  restarts_in ex_clk [OSplit; OStop] (fst (fst (step ex_clk ORestart (fst c1) (snd c1)))) 7 = false /\
+  w_started (fst (final ex_clk (ops1 ++ ORestart :: [OSplit; OStop]) ex_watch 0)) = Some (ex_clk 6).
+Proof. vm_compute. repeat split. Qed.
